@@ -77,6 +77,25 @@ func envInt(name string, def int) int {
 	return def
 }
 
+// envInts reads a comma separated list of integers.
+func envInts(name string, def []int) []int {
+	v := os.Getenv(name)
+	if v == "" {
+		return def
+	}
+	var out []int
+	for _, f := range strings.Split(v, ",") {
+		var x int
+		if _, err := fmt.Sscan(strings.TrimSpace(f), &x); err == nil {
+			out = append(out, x)
+		}
+	}
+	if len(out) == 0 {
+		return def
+	}
+	return out
+}
+
 // subset draws a sub-list of items (each with probability 1/2).
 func subset[T any](rt *rapid.T, label string, items []T) []T {
 	mask := rapid.IntRange(0, (1<<len(items))-1).Draw(rt, label)
